@@ -308,6 +308,74 @@ func (tlscfgComp) execStartName(t []string) (string, string, string, bool) {
 	return "name " + hexs([]byte(name)), mon, class, true
 }
 
+// verifyingManager hands out a VERIFYING client configuration (CA A trusted, InsecureSkipVerify off) and keeps the
+// object, so that what startTls wrote into it can be read back after the handshake.
+type verifyingManager struct{ conf *tls.Config }
+
+func (m *verifyingManager) GetTlsConfig() (*tls.Config, error) {
+	c, err := (&cert.ClientConfig{Config: cert.Config{CaCertificate: getC05PKI().caPEM["A"]}}).GetTlsConfig()
+	m.conf = c
+	return c, err
+}
+
+// startcfg <hex host>: the real startTls with a verifying configuration against the `good` server (names server.test,
+// localhost, 127.0.0.1, ::1).  => name <hex ServerName> isv=<InsecureSkipVerify afterwards> <est|ref>
+// monitor: startTls must not switch verification off; established => the host part names the certificate.
+func (tlscfgComp) execStartCfg(t []string) (string, string, string, bool) {
+	if len(t) != 1 {
+		return "bad-op", "", "bad-op", false
+	}
+	hostB, err := unhex(t[0])
+	if err != nil {
+		return "bad-op", "", "bad-op", false
+	}
+	host := string(hostB)
+	p := getC05PKI()
+	srvCfg := &cert.ServerConfig{Config: cert.Config{Certificate: p.server["good"].certPEM, PrivateKey: p.server["good"].keyPEM}}
+	a, b := newBufPipe()
+	defer a.Close()
+	defer b.Close()
+	go func() { _, _ = socketace.NewServerConnection(b, srvCfg, false) }()
+	mgr := &verifyingManager{}
+	done := make(chan error, 1)
+	go func() {
+		_, err := socketace.NewClientConnection(a, mgr, false, host)
+		done <- err
+	}()
+	var cerr error
+	select {
+	case cerr = <-done:
+	case <-time.After(20 * time.Second):
+		return "timeout", "StartTLS handshake did not finish", "startcfg:timeout", false
+	}
+	if mgr.conf == nil {
+		return "err noconfig", "", "startcfg:err", false
+	}
+	out := "ref"
+	if cerr == nil {
+		out = "est"
+	}
+	isv := "0"
+	mon := ""
+	if mgr.conf.InsecureSkipVerify {
+		isv = "1"
+		mon = fmt.Sprintf("startTls switched certificate verification off (InsecureSkipVerify=true) for the upstream host %q of a client that is not in insecure mode", host)
+	}
+	if cerr == nil && mon == "" {
+		// the host part as SplitHostPort-free reading: everything before the last ":port", brackets kept
+		part := host
+		if ip := net.ParseIP(host); ip != nil && strings.Contains(host, ":") {
+			part = "[" + host + "]" // a bare IPv6 literal, no port
+		} else if i := strings.LastIndexByte(host, ':'); i >= 0 && i > strings.LastIndexByte(host, ']') {
+			part = host[:i]
+		}
+		if !c05HostAcceptable([]string{"server.test", "localhost", "127.0.0.1", "::1"}, part) {
+			mon = fmt.Sprintf("verified StartTLS session for the upstream host %q, which does not name the server certificate (ServerName %q)", host, mgr.conf.ServerName)
+		}
+	}
+	return "name " + hexs([]byte(mgr.conf.ServerName)) + " isv=" + isv + " " + out, mon, "startcfg:" + out, cerr == nil
+}
+
 func (tlscfgComp) execUdp(t []string) (string, string, string, bool) {
 	if len(t) != 2 {
 		return "bad-op", "", "bad-op", false
@@ -381,6 +449,8 @@ func (c tlscfgComp) Exec(op string) (string, string, string, bool) {
 	switch t[0] {
 	case "startname":
 		return c.execStartName(t[1:])
+	case "startcfg":
+		return c.execStartCfg(t[1:])
 	case "udp":
 		return c.execUdp(t[1:])
 	case "cfg":
@@ -540,6 +610,16 @@ func (tlscfgComp) Gen(r *Rand, tier string, emit func(string)) {
 	for _, h := range []string{"", "server.test", "localhost", "127.0.0.1", "::1", "[::1]", "a:b:c", "[::1]x:1", "[::1", "x]:1",
 		":80", "[]:1", "[a]:b:c", "a[b:1", "[a]b]:1", "[a[b]:1", "::", "[::1]:", "[host]:1x"} {
 		emit("startname " + hexs([]byte(h)) + " -")
+	}
+	// 4b. the same through a VERIFYING configuration: every host form (c05_hostforms.go) as host:port and bare
+	for _, part := range append(append([]string{"localhost", "127.0.0.1", "server.test", "other.test", "10.9.9.9"}, c05DialForms...), c05PipeOnlyForms...) {
+		h := c05NoUserinfo(part)
+		for _, hp := range []string{h + ":4443", h, h + ":"} {
+			emit("startcfg " + hexs([]byte(hp)))
+		}
+	}
+	for _, h := range []string{":", "::", ":0", ":65535", ":http", "[::1]", "[::1]:", "[::1]x:1", "a:b:c", "[]:1", " :1", "localhost :1"} {
+		emit("startcfg " + hexs([]byte(h)))
 	}
 	labels := []string{"a", "srv", "example", "test", "x1", "node-7"}
 	m := 20
